@@ -109,6 +109,14 @@ def CarveCSem (env : CEnv) (c : CExpr) : Bool :=
   CarveNSem env.assigned c &&
   (isNotLog c || (match compileExpr (fixedEnv env) c with | .ok cc => condOK cc | .error _ => true))
 
+/-- the TARGET of an assignment: value-carved like every expression, or — for a plain `=` — a register on whose type
+    the two lowerings agree (`regSafe` without its "read and assigned" clause).  The target of `=` is only written
+    (`destWrite` goes by the syntax of the target); the compiled READ of it, which is where the code deviates for an
+    explicit/alias register assigned somewhere (`assignedRegsReadNew`: `P0 = …;`, `HEX_REG_ALIAS_SA1 = …;`), contributes
+    nothing but its type.  Compound operators (`P0 |= x`) do read the target and keep the full condition. -/
+def lhsCarveSem (asg : List String) (op : String) (lhs : CExpr) : Bool :=
+  CarveESem asg lhs || (op == "=" && (match lhs with | .reg n k t => regSafe [] n k t | _ => false))
+
 /-- `assignCarve` with the semantic conversion test -/
 def assignCarveSem (op : String) (cd ce : CE) : Bool :=
   if op == "=" then castOKSem cd.ty ce
@@ -120,7 +128,8 @@ mutual
 /-- SEMANTIC carve-out of statements (`env.assigned`: operand variables assigned anywhere in the behaviour): `CarveS`
     with `CarveE` replaced by `CarveESem` and `castOK` by `castOKSem`; stored data may be signed when the store
     narrows or keeps the width; a chained assignment keeps the syntactic carve-out; the condition of `if`/`for` is in
-    the condition-position carve-out `CarveCSem` (a top-level `!`/`&&`/`||` is accepted there). -/
+    the condition-position carve-out `CarveCSem` (a top-level `!`/`&&`/`||` is accepted there); the target of a plain
+    `=` may be an explicit/alias register that is assigned (`lhsCarveSem`). -/
 def CarveSSem (env : CEnv) : CStmt → Bool
   | .decl _ _ none => true
   | .decl t _ (some e) =>
@@ -128,7 +137,7 @@ def CarveSSem (env : CEnv) : CStmt → Bool
         | .ok ce => castOKSem t.toVT ce
         | .error _ => true)
   | .assign lhs op e =>
-      assignOps.contains op && CarveESem env.assigned lhs && CarveESem env.assigned e &&
+      assignOps.contains op && lhsCarveSem env.assigned op lhs && CarveESem env.assigned e &&
       (match compileExpr (fixedEnv env) lhs, compileExpr (fixedEnv env) e with
        | .ok cd, .ok ce => assignCarveSem op cd ce
        | _, _ => true)
